@@ -27,6 +27,10 @@ def hx(x):
     return x.hex()
 
 
+# classes of former findings that have been repaired in /repo: they suppress nothing; their pinned corpus cases are
+# regression obligations
+FIXED_CLASSES = {"transformed-drops-limits", "transformed-normal-zeros-like", "beta-project-raises", "fixed-sdiv"}
+
 # ---------------------------------------------------------------------------
 # generator
 # ---------------------------------------------------------------------------
@@ -725,8 +729,7 @@ def case_classes(c, res, aspect):
     if c["kind"] == "alg":
         if aspect == "log_norm@product-drops":
             cl.append("product-drops-lognorm")
-        if aspect == "log_norm@fixed-sdiv" and c["fam"] == "fixed":
-            cl.append("fixed-sdiv")
+        # (log_norm@fixed-sdiv is the former finding fixed by 7b98f8b: no class any more, a recurrence is a VIOLATION)
         if aspect in ("mixed@broadcast-axis", "mixed@raises") and c.get("mixed"):
             cl.append("mixed-shape-broadcast")
     elif c["kind"] == "mixedparam":
@@ -1462,10 +1465,15 @@ def run(ctx):
     cases = gen_alg(ctx, n_alg) + gen_proj(ctx, n_proj) + gen_dens(ctx, n_dens) + gen_det(ctx, n_det) + gen_hist(ctx, n_hist) \
         + gen_lpdf(ctx, n_lpdf) + gen_mixed(ctx, n_mix) + gen_mixedparam(ctx, n_mix)
     corpus_dir = os.path.join(common.VERIF, "corpus", "C17")
+    regression = {}            # id(case) -> file name, for the pinned cases of findings that have been repaired
     if os.path.isdir(corpus_dir):
         for f in sorted(os.listdir(corpus_dir)):
             if f.endswith(".json"):
-                cases.insert(0, json.load(open(os.path.join(corpus_dir, f)))["case"])
+                entry = json.load(open(os.path.join(corpus_dir, f)))
+                cases.insert(0, entry["case"])
+                if entry.get("class") in FIXED_CLASSES:
+                    regression[id(entry["case"])] = f
+    reg_bad = {}
     if ctx.replay:
         rp = json.load(open(ctx.replay))
         if rp.get("case"):
@@ -1539,12 +1547,23 @@ def run(ctx):
                 continue
             seen.add(aspect)
             ctx.oracle["failures"] += 1
-            ctx.failure("oracle", msg, c, classes=case_classes(c, res, aspect), impl=_small(res))
+            cls_ = case_classes(c, res, aspect)
+            if id(c) in regression and ctx.match_known(cls_) is None:
+                reg_bad.setdefault(id(c), []).append(aspect + ": " + msg[:120])
+            ctx.failure("oracle", msg, c, classes=cls_, impl=_small(res))
         if i % 53 == 0:
             ctx.sample({"case": c if len(json.dumps(c)) < 1500 else {"kind": kind, "law": c.get("law"), "fam": c.get("fam")}}, limit=8)
     if os.path.exists(os.path.join(common.COQ, "C17", "Model.vo")):
         hdr = ctx.header(["Common.PyFloat", "Common.Lists", "Model"])
         bad, log = ctx.eval_cases(hdr, "case", "check_case", coq_terms, shard=120)
+        for b in (bad or []):
+            if id(cases[coq_idx[b]]) in regression:
+                reg_bad.setdefault(id(cases[coq_idx[b]]), []).append("model and implementation disagree")
+        if not ctx.replay:
+            # the pinned case of every repaired finding must now satisfy the property and agree with the repaired model
+            for cid, fname in sorted(regression.items(), key=lambda kv: kv[1]):
+                ctx.obligation("regression:" + fname[:-5], "regression", cid not in reg_bad and bad is not None,
+                               "; ".join(reg_bad.get(cid, [])) or "former finding stays repaired")
         if bad:
             seen = set()
             for b in bad:
